@@ -474,6 +474,8 @@ func Diff(sent, got []byte) (kind string, at int) {
 			}
 			return "duplicated", n
 		}
+	} else if n+len(rest) < len(sent) && bytes.HasSuffix(sent, rest) {
+		return "lost", n // only the last few bytes arrived after the gap
 	}
 	return "modified", n
 }
